@@ -135,6 +135,16 @@ Proof.
   unfold inv, tx_inv, tm_inv in *. rewrite E1, E2, E3, E4, E5, E6, E7, E10. exact H.
 Qed.
 
+Lemma txv_proj : forall a b, txv a = txv b ->
+  s_state a = s_state b /\ s_tx_buffer a = s_tx_buffer b /\ s_local_seq_no a = s_local_seq_no b /\
+  s_remote_last_seq a = s_remote_last_seq b /\ s_remote_win_len a = s_remote_win_len b /\
+  s_remote_win_scale a = s_remote_win_scale b /\ s_timer a = s_timer b /\
+  s_remote_mss a = s_remote_mss b /\ s_remote_win_shift a = s_remote_win_shift b /\
+  s_syn_unacked_in_fin_wait a = s_syn_unacked_in_fin_wait b.
+Proof.
+  intros a b H. unfold txv in H. injection H. intros. repeat split; assumption.
+Qed.
+
 Lemma tx_inv_txv : forall g s s', txv s' = txv s -> tx_inv g s -> tx_inv g s'.
 Proof.
   intros g s s' E H. unfold txv in E. injection E as E1 E2 E3 E4 E5 E6 E7 E8 E9 E10.
